@@ -98,6 +98,11 @@ pub enum CallKind {
     IterNext,
     IterClone,
     FlatMapG,
+    /// virtual executor: a task was spawned (id = task), a sleep was requested (arg = ns), a task finished
+    ExecSpawn,
+    ExecSleep,
+    ExecTaskDone,
+    ExecFire,
 }
 
 #[derive(Clone, Debug, PartialEq, Eq, Hash, Serialize, Deserialize)]
